@@ -5,6 +5,7 @@
   updater/locallocker.go by the hook-trace correspondence (`./check C20`).
 -/
 import ClairModel.Proofs.Locks
+import ClairModel.Proofs.LockCallers
 
 -- every variable of a property statement is bound explicitly: a misspelt name is an error, not a new variable
 set_option autoImplicit false
@@ -162,5 +163,291 @@ example :
     Inv s ∧ (∃ gr ∈ s.active, ∃ w ∈ s.parked, w.key = gr.key) := by
   refine ⟨reachable_inv _, ?_⟩
   decide
+
+/-! ## More about the lock machine itself -/
+
+/-- `Close` (libvuln/updates.localLockSource; updater.localLocker has none) does nothing:
+    every key stays as it was, every holder keeps its key. -/
+theorem close_noop (s : State) : step s .close = (s, .ok) := rfl
+
+/-- A blocking attempt on a held key does not get it: the goroutine parks. -/
+theorem lock_held_parks (s : State) (t k p : Nat) (hk : k ∈ s.held)
+    (ht : (s.parked.any fun w => w.tid == t) = false) :
+    (step s (.lock t k p)).2 = .parked ∧ (step s (.lock t k p)).1.active = s.active := by
+  simp [step, hk, ht]
+
+/-- No lost wake-up / hand-over for any number of keys and waiters: in every
+    reachable state a parked goroutine whose key is free has been made runnable,
+    and when it re-tests it is granted the key — whoever else is parked, on
+    whatever keys. -/
+theorem free_key_waiter_acquires (ops : List Op) (w : Waiter)
+    (hw : w ∈ (Sm.run step init ops).parked) (hfree : w.key ∉ (Sm.run step init ops).held) :
+    w.runnable = true ∧
+    (step (Sm.run step init ops) (.retest w.tid)).2 = .acquired (Sm.run step init ops).issued := by
+  have hinv := reachable_inv ops
+  generalize Sm.run step init ops = s at hw hfree hinv
+  have hrun : w.runnable = true := by
+    cases hr : w.runnable with
+    | true => rfl
+    | false => exact absurd (hinv.noLostWake w hw hr) hfree
+  refine ⟨hrun, ?_⟩
+  simp only [step]
+  cases hf : s.parked.find? (fun w' => w'.tid == w.tid && w'.runnable) with
+  | none =>
+    have := List.find?_eq_none.1 hf w hw
+    simp [hrun] at this
+  | some w' =>
+    have hm := List.mem_of_find?_eq_some hf
+    have ht : w'.tid = w.tid := by have := List.find?_some hf; simp at this; exact this.1
+    have : w' = w := eq_of_nodup_map (·.tid) _ hinv.tidNodup hm hw ht
+    subst this
+    simp [hfree, acquire]
+
+/-- The context handed to a holder is live exactly as long as the key is held
+    and the parent is not cancelled … -/
+theorem ctx_live_while_held (ops : List Op) (gr : Grant) (hg : gr ∈ (Sm.run step init ops).active) :
+    ctxLive (Sm.run step init ops) gr.gid = !((Sm.run step init ops).deadParents.contains gr.parent) := by
+  have hinv := reachable_inv ops
+  generalize Sm.run step init ops = s at hg hinv
+  simp only [ctxLive]
+  cases hf : s.active.find? (fun x => x.gid == gr.gid) with
+  | none =>
+    have := List.find?_eq_none.1 hf gr hg
+    simp at this
+  | some gr' =>
+    obtain ⟨hm, he⟩ := find_gid hf
+    rw [eq_of_nodup_map (·.gid) _ hinv.gidNodup hm hg he]
+
+/-- … and dead once the grant is gone (released), whatever the parent does. -/
+theorem ctx_dead_when_not_held (s : State) (g : Nat) (hg : ∀ gr ∈ s.active, gr.gid ≠ g) :
+    ctxLive s g = false := by
+  simp only [ctxLive]
+  cases hf : s.active.find? (fun x => x.gid == g) with
+  | none => rfl
+  | some gr =>
+    obtain ⟨hm, he⟩ := find_gid hf
+    exact absurd he (hg gr hm)
+
+/-- Cancelling a parent context takes no key away and wakes nobody (the
+    documented BUG(hank): a parked Lock does not watch its parent). -/
+theorem parent_cancel_keeps_keys (s : State) (p : Nat) :
+    (step s (.cancelParent p)).1.held = s.held ∧ (step s (.cancelParent p)).1.active = s.active ∧
+    (step s (.cancelParent p)).1.parked = s.parked := by
+  simp [step]
+
+/-! ## The callers of the lock sources
+
+    `LockCallers` models Libindex.Index, the per-updater goroutine and the GC
+    section of updates.Manager.Run, and updater.Updater.fetchOne as brackets
+    over the lock machine.  Tied to the code by the caller-level protocol lines
+    of `./check C20` (real Libindex.Index / Manager.Run / Updater.Run calls). -/
+
+open ClairModel.LockCallers in
+/-- Every state of the caller machine reachable by any interleaving of calls
+    beginning, lock events, context checks, bodies ending, releases, returns,
+    parent cancellations and outsiders' lock operations satisfies the invariant. -/
+theorem callers_reachable_inv (ops : List LockCallers.Op) :
+    CInv (Sm.run LockCallers.step LockCallers.init ops) :=
+  Sm.invariant_run (Inv := CInv) (fun _ op h => cinv_step h op) ops _ cinv_init
+
+open ClairModel.LockCallers in
+/-- Mutual exclusion at the callers: two calls that answer for a grant (granted,
+    inside the body, or on the way out with the release pending) on the same key
+    are the same call. -/
+theorem caller_mutex (ops : List LockCallers.Op) (c₁ c₂ g₁ g₂ : Nat)
+    (h₁ : ((Sm.run LockCallers.step LockCallers.init ops).pc c₁).gid? = some g₁)
+    (h₂ : ((Sm.run LockCallers.step LockCallers.init ops).pc c₂).gid? = some g₂)
+    (hk : (Sm.run LockCallers.step LockCallers.init ops).key c₁ =
+          (Sm.run LockCallers.step LockCallers.init ops).key c₂) : c₁ = c₂ := by
+  have hinv := callers_reachable_inv ops
+  generalize Sm.run LockCallers.step LockCallers.init ops = s at h₁ h₂ hk hinv
+  obtain ⟨ho₁, gr₁, hm₁, hg₁, hk₁, _⟩ := hinv.holdHas c₁ g₁ h₁
+  obtain ⟨ho₂, gr₂, hm₂, hg₂, hk₂, _⟩ := hinv.holdHas c₂ g₂ h₂
+  have : gr₁ = gr₂ := eq_of_nodup_map (·.key) _ hinv.lk.oneHolder hm₁ hm₂ (by simp [hk₁, hk₂, hk])
+  subst this
+  rw [hg₁] at hg₂; subst hg₂
+  rw [ho₁] at ho₂
+  exact Option.some.inj ho₂
+
+open ClairModel.LockCallers in
+/-- The bracket: a key that was handed to a call is held only while that call
+    still has its release pending.  No exit path (context dead before, while or
+    after waiting; body failed; body succeeded) leaves a grant behind. -/
+theorem bracket_no_orphan (ops : List LockCallers.Op) (gr : Grant) (c : Nat)
+    (hg : gr ∈ (Sm.run LockCallers.step LockCallers.init ops).lk.active)
+    (ho : (Sm.run LockCallers.step LockCallers.init ops).owner gr.gid = some c) :
+    ((Sm.run LockCallers.step LockCallers.init ops).pc c).gid? = some gr.gid :=
+  (callers_reachable_inv ops).ownHeld gr hg c ho
+
+open ClairModel.LockCallers in
+/-- A call that has called `done`, or returned, holds nothing. -/
+theorem returned_holds_nothing (ops : List LockCallers.Op) (c : Nat)
+    (hpc : (Sm.run LockCallers.step LockCallers.init ops).pc c = .finished ∨
+           (Sm.run LockCallers.step LockCallers.init ops).pc c = .returned) :
+    ∀ gr ∈ (Sm.run LockCallers.step LockCallers.init ops).lk.active,
+      (Sm.run LockCallers.step LockCallers.init ops).owner gr.gid ≠ some c := by
+  intro gr hg ho
+  have := bracket_no_orphan ops gr c hg ho
+  rcases hpc with h | h <;> rw [h] at this <;> cases this
+
+open ClairModel.LockCallers in
+/-- The release a call owes is effective: it answers `released` (never a no-op),
+    the call's key is free afterwards, and the context the body ran on is dead. -/
+theorem done_releases (s : LockCallers.State) (hinv : CInv s) (c g : Nat)
+    (hpc : s.pc c = .mustRelease g) :
+    (LockCallers.step s (.done c)).2 = .lk .released ∧
+    s.key c ∉ (LockCallers.step s (.done c)).1.lk.held ∧
+    (LockCallers.step (LockCallers.step s (.done c)).1 (.bctx c)).2 = .ctxLive false := by
+  obtain ⟨_, gr, hm, hg, hk, _⟩ := hinv.holdHas c g (by rw [hpc]; rfl)
+  have hfind : s.lk.active.find? (fun x => x.gid == g) = some gr := by
+    cases hf : s.lk.active.find? (fun x => x.gid == g) with
+    | none =>
+      have := List.find?_eq_none.1 hf gr hm
+      simp [hg] at this
+    | some gr' =>
+      obtain ⟨hm', he⟩ := find_gid hf
+      rw [eq_of_nodup_map (·.gid) _ hinv.lk.gidNodup hm' hm (by rw [he, hg])]
+  refine ⟨?_, ?_, ?_⟩
+  · simp only [LockCallers.step, hpc, Locks.step, hfind]
+  · simp [LockCallers.step, hpc, Locks.step, hfind, hk]
+  · simp only [LockCallers.step, hpc, upd_same]
+
+open ClairModel.LockCallers in
+/-- Calling `done` again (a second deferred call, a retry) changes nothing. -/
+theorem done_repeat_noop (s : LockCallers.State) (c : Nat) (hpc : s.pc c = .finished ∨ s.pc c = .returned) :
+    LockCallers.step s (.done c) = (s, .lk .noop) := by
+  rcases hpc with h | h <;> simp only [LockCallers.step, h]
+
+open ClairModel.LockCallers in
+/-- A refused TryLock owes no release: its `done` touches no key. -/
+theorem refused_done_touches_nothing (s : LockCallers.State) (c : Nat) (hpc : s.pc c = .refused) :
+    (LockCallers.step s (.done c)).1.lk = s.lk ∧ (LockCallers.step s (.done c)).2 = .lk .noop := by
+  simp only [LockCallers.step, hpc]; exact ⟨trivial, trivial⟩
+
+open ClairModel.LockCallers in
+/-- The caller looks at the context it was given: the body runs exactly when the
+    parent context is not cancelled at that moment; otherwise the call is on its
+    way out with the release pending. -/
+theorem check_skips_iff_parent_dead (s : LockCallers.State) (c g : Nat) (hpc : s.pc c = .granted g) :
+    ((LockCallers.step s (.check c)).2 = .skip ↔ parentDead s c = true) ∧
+    ((LockCallers.step s (.check c)).1.pc c).gid? = some g := by
+  simp only [LockCallers.step, hpc]
+  split <;> simp_all [Pc.gid?]
+
+open ClairModel.LockCallers in
+/-- Hand-over between calls: when the call holding a key calls `done`, a call
+    parked on that key is granted it at its re-test. -/
+theorem caller_handover (s : LockCallers.State) (hinv : CInv s) (h w g : Nat)
+    (hh : s.pc h = .mustRelease g) (hw : s.pc w = .waiting) (hk : s.key w = s.key h) :
+    ∃ g', (LockCallers.step (LockCallers.step s (.done h)).1 (.retest w)).2 = .lk (.acquired g') := by
+  have hinv' := cinv_step hinv (.done h)
+  have hfree := (done_releases s hinv h g hh).2.1
+  have hne : w ≠ h := by intro e; subst e; rw [hh] at hw; cases hw
+  have hpcw : (LockCallers.step s (.done h)).1.pc w = .waiting := by
+    simp only [LockCallers.step, hh, upd_other _ _ _ _ hne]; exact hw
+  have hkw : (LockCallers.step s (.done h)).1.key w = s.key h := by
+    simp only [LockCallers.step, hh]; exact hk
+  generalize (LockCallers.step s (.done h)).1 = s' at hinv' hfree hpcw hkw
+  obtain ⟨lk', hstep⟩ := waiting_free_retest hinv' w hpcw (by rw [hkw]; exact hfree)
+  exact ⟨s'.lk.issued, by simp only [LockCallers.step, hpcw, hstep, settle]⟩
+
+open ClairModel.LockCallers in
+/-- Deadlock freedom: in every reachable state where only callers hold keys and
+    some call is not over, some caller has a step that brings the whole set of
+    calls strictly closer to completion (measure `mu`). -/
+theorem callers_progress (ops : List LockCallers.Op)
+    (ho : ownedAll (Sm.run LockCallers.step LockCallers.init ops))
+    (hpos : 0 < mu (Sm.run LockCallers.step LockCallers.init ops)) :
+    ∃ op, internal op = true ∧
+      mu (LockCallers.step (Sm.run LockCallers.step LockCallers.init ops) op).1 <
+      mu (Sm.run LockCallers.step LockCallers.init ops) :=
+  progress (callers_reachable_inv ops) ho hpos
+
+open ClairModel.LockCallers in
+/-- No step of any caller ever moves the calls away from completion, so under a
+    fair scheduler (every enabled decreasing step is eventually taken) every
+    call returns. -/
+theorem callers_never_regress (s : LockCallers.State) (op : LockCallers.Op) (hop : internal op = true) :
+    mu (LockCallers.step s op).1 ≤ mu s :=
+  mu_le_internal s op hop
+
+open ClairModel.LockCallers in
+/-- Liveness with hand-over, any number of calls and keys: from every reachable
+    state where only callers hold keys the callers can, by their own steps
+    alone, bring every call to its end; then no key is held and nobody is left
+    answering for a grant. -/
+theorem callers_drain (ops : List LockCallers.Op)
+    (ho : ownedAll (Sm.run LockCallers.step LockCallers.init ops)) :
+    ∃ more, (∀ op ∈ more, internal op = true) ∧
+      mu (Sm.run LockCallers.step LockCallers.init (ops ++ more)) = 0 ∧
+      (Sm.run LockCallers.step LockCallers.init (ops ++ more)).lk.held = [] ∧
+      (Sm.run LockCallers.step LockCallers.init (ops ++ more)).lk.active = [] := by
+  obtain ⟨more, hint, hz, hinv, ho'⟩ := drain _ _ (callers_reachable_inv ops) ho (Nat.le_refl _)
+  refine ⟨more, hint, ?_⟩
+  rw [Sm.run_append]
+  obtain ⟨ha, hh⟩ := mu_zero_free hinv ho' hz
+  exact ⟨hz, hh, ha⟩
+
+open ClairModel.LockCallers in
+/-- Lock operations by somebody who is not one of the modelled callers are plain
+    lock-machine steps (on odd thread ids), so every theorem about `Locks.step`
+    above applies to them unchanged; only a caller's own release function is
+    out of an outsider's reach. -/
+theorem raw_is_lock_step (s : LockCallers.State) (op : Locks.Op)
+    (h : ∀ g, op = .release g → s.owner g = none) :
+    LockCallers.step s (.raw op) =
+      ({ s with lk := (Locks.step s.lk (rawOp op)).1 }, .lk (Locks.step s.lk (rawOp op)).2) := by
+  cases op with
+  | release g => simp [LockCallers.step, h g rfl, rawOp]
+  | _ => rfl
+
+/-- The history of seeded change C20-c3: call 0 (Index of manifest 7) is in its
+    body, call 1 for the same manifest parks, its parent context is cancelled,
+    call 0 finishes and releases, call 1 is granted the key on its dead context. -/
+def abandonedWaiter : List LockCallers.Op :=
+  [.begin .index 7 0, .acquire 0, .check 0, .begin .index 7 1, .acquire 1, .raw (.cancelParent 1),
+   .leave 0 0, .done 0, .retest 1, .check 1, .done 1, .ret 0, .ret 1]
+
+open ClairModel.LockCallers in
+/-- A caller that registers its release only after looking at the context (the
+    `stepLateDefer` machine: C20-c3, and the same slip in any other caller)
+    leaves the key held with every call returned: the next call for that key
+    parks and nobody is left to wake it. -/
+theorem late_defer_counterexample :
+    let s := Sm.run stepLateDefer LockCallers.init abandonedWaiter
+    allReturned s = true ∧ s.lk.held = [7] ∧
+    (stepLateDefer (stepLateDefer s (.begin .index 7 2)).1 (.acquire 2)).2 = .lk .parked := by
+  decide
+
+open ClairModel.LockCallers in
+/-- The same history on the machine of the code as it is: everything returned, nothing held. -/
+example :
+    let s := Sm.run LockCallers.step LockCallers.init abandonedWaiter
+    allReturned s = true ∧ s.lk.held = [] ∧ s.res 1 = 2 := by
+  decide
+
+open ClairModel.LockCallers in
+/-- Non-vacuity of `caller_handover` / `callers_drain`: a reachable state with a
+    call on its way out, a call parked on the same key, and only callers holding keys. -/
+example :
+    let s := Sm.run LockCallers.step LockCallers.init
+      [.begin .index 7 0, .acquire 0, .check 0, .begin .index 7 1, .acquire 1, .leave 0 0]
+    s.pc 0 = .mustRelease 0 ∧ s.pc 1 = .waiting ∧ s.key 1 = s.key 0 ∧
+    (∀ gr ∈ s.lk.active, (s.owner gr.gid).isSome = true) := by
+  decide
+
+/-! ## Which lock source is used -/
+
+open ClairModel.LockCallers in
+/-- A lock source that is passed in is the one that is used, at every entry point. -/
+theorem select_given_respected (e : Entry) : select e true = .given := rfl
+
+open ClairModel.LockCallers in
+/-- Without one: libindex.New refuses to build; libvuln.New and updater.New fall
+    back to a fresh process-local lock source.  No entry point goes on with no
+    lock source at all. -/
+theorem select_default (e : Entry) :
+    select e false = (match e with | .libindex => Sel.rejected | .libvuln => .localSrc | .updater => .localSrc) := by
+  cases e <;> rfl
 
 end ClairModel.Props.C20
